@@ -92,6 +92,11 @@ def is_in_pattern(body, node):
             return True
     return False
 
+
+def is_err_body(e):
+    """does this arm produce an error (Err(..), return Err(..), Err(..)?)"""
+    return bool(find(e, lambda n: n.get("k") == "Call" and (strip(n["f"]).get("path") or {}).get("def") == "core::result::Result::Err"))
+
 def run(facts, tier):
     t0 = time.time()
     rules = []
@@ -228,6 +233,14 @@ def run(facts, tier):
             t2.examined(("field", sh), True, {"short": sh, "sets": sorted(got)})
             if got != want:
                 t2.violate(f"field/{sh}", f"-{sh} sets {sorted(got)}, the manual says it controls {sorted(want)}", where=a["sp"])
+        # -j implies raw output only when no output format has been chosen: it must not overwrite `--to` / `--raw-output0`
+        a = short_arms.get("j")
+        if a is not None:
+            assigns = [n for n in find(a["body"], lambda n: n.get("k") in ("Assign", "AssignOp") and strip(n["l"]).get("k") == "Field" and strip(n["l"]).get("name") == "to")]
+            keeps = [n for n in find(a["body"], lambda n: n.get("k") == "MethodCall" and n["m"]["name"] in ("get_or_insert", "get_or_insert_with") and strip(n["recv"]).get("k") == "Field" and strip(n["recv"]).get("name") == "to")]
+            t2.examined(("mode", "j"), True, {"short": "j", "output_format_set_only_if_unset": bool(keeps) and not assigns})
+            if assigns or not keeps:
+                t2.violate("field/j/overwrite", "-j overwrites an output format chosen earlier on the command line (`--to FORMAT -j`, `--raw-output0 -j`) instead of defaulting it: the result depends on the order of the options", where=a["sp"])
         for lo, want in sorted(LONG_FIELD_SPEC.items()):
             a = long_arms.get(lo)
             if not a:
@@ -366,6 +379,73 @@ def run(facts, tier):
     # ---------------- U17.7 standard input and file arguments treat UTF-8 alike (shared with C07 T7.5)
     from c07 import rule_utf8_sync
     rules.append(rule_utf8_sync(facts, "U17.7").finish())
+
+    # ---------------- P17.8 an explicit input format beats the file extension
+    p8 = Rule("P17.8", "`--from` / `-R` / `--raw-input0` take precedence over the format guessed from a file's extension: wherever the driver combines the option with "
+              "`Format::determine`, the option is the receiver of the `or`/`or_else`/`unwrap_or*` and the guess is the fall-back", floor=1)
+    cli_adt = [a_ for a_ in facts.items("jaq")["adts"] if a_["def"] == "jaq::cli::Cli"]
+    cfields = [f_["name"] for f_ in cli_adt[0]["variants"][0]["fields"]] if cli_adt else []
+    if "from" not in cfields:
+        p8.missing_anchor("field jaq::cli::Cli.from")
+    else:
+        kf = cfields.index("from")
+        det_closures = {j_["def"] for j_ in facts.mir("jaq") if "{closure" in j_["def"] and Body(j_).find_calls(r"^jaq_fmts::Format::determine$")}
+        combos = 0
+        for crate_, j_ in facts.all_mir():
+            if crate_ != "jaq" or j_.get("test") or j_["def"].startswith("jaq::funs::repl") or (j_.get("root") or "").startswith("jaq::funs::repl"):
+                continue
+            b_ = Body(j_)
+            opt_reads = set()
+            for bb_ in b_.bbs:
+                for s_ in bb_["st"]:
+                    if s_.get("k") == "A" and s_["r"].get("k") in ("Use", "Ref"):
+                        pl = s_["r"].get("p") or s_["r"]["o"].get("c") or s_["r"]["o"].get("m")
+                        if pl and b_.locals[pl["l"]]["ty"].replace("&", "").replace("mut ", "").endswith("jaq::cli::Cli") and [e_ for e_ in (pl.get("pr") or []) if e_ != "*"] == [{"f": kf}]:
+                            opt_reads.add(s_["p"]["l"])
+            from_l = b_.derived_from(opt_reads) if opt_reads else set()
+            det_src = {b_.call_result_local(c_) for c_ in b_.find_calls(r"^jaq_fmts::Format::determine$")}
+            det_src |= {s_["p"]["l"] for bb_ in b_.bbs for s_ in bb_["st"] if s_.get("k") == "A" and s_["r"].get("k") == "Agg" and (s_["r"].get("ak") or "")[len("Closure:"):] in det_closures}
+            det_l = b_.derived_from(det_src) if det_src else set()
+            if not from_l or not det_l:
+                continue
+            for i_, t_ in b_.calls():
+                if not re.search(r"^core::option::Option::<T>::(or|or_else|xor|unwrap_or|unwrap_or_else|map_or|map_or_else|get_or_insert|get_or_insert_with|zip|and|and_then)$", t_.get("fn") or ""):
+                    continue
+                recv, rest = set(b_.arg_locals(i_, 0)), set(b_.arg_locals(i_)) - set(b_.arg_locals(i_, 0))
+                r_from, r_det = bool(recv & from_l) and not (recv & det_l), bool(recv & det_l) and not (recv & from_l)
+                o_from, o_det = bool(rest & from_l), bool(rest & det_l)
+                if (r_from and o_det) or (r_det and o_from):
+                    combos += 1
+                    p8.examined((j_["def"], t_["sp"]), True, {"in": j_["def"], "combinator": (t_.get("fn") or "").split("::")[-1], "explicit_option_first": r_from})
+                    if r_det:
+                        p8.violate("precedence", f"in `{j_['def']}` the format guessed from the file extension is the receiver of `{(t_.get('fn') or '').split('::')[-1]}` and the explicit --from/-R option only the fall-back: `jaq -R . file.json` would parse JSON", where=t_["sp"])
+        if not combos:
+            p8.missing_anchor("the place where the driver combines Cli.from with Format::determine")
+    rules.append(p8.finish())
+
+    # ---------------- N17.9 raw0: no output may contain the terminator
+    n9 = Rule("N17.9", "with `--raw-output0` / `--to raw0` a string that contains NUL is rejected whichever kind of string it is: for text strings and for byte strings the arm that "
+              "tests for NUL comes before the arm that writes the raw bytes", floor=2)
+    vvar = dict(adt_variants(facts, "jaq_json::Val") or [])
+    wtabs = []
+    for f_ in facts.hir("jaq_fmts"):
+        if not f_["def"].startswith("jaq_fmts::write::") or f_.get("test"):
+            continue
+        for m_ in find(f_["body"], lambda n: n.get("k") == "Match" and n.get("src") == "Normal" and "jaq_json::Val" in n.get("scrut_ty", "") and "jaq_fmts::Format" in n.get("scrut_ty", "")):
+            wtabs.append((f_, m_))
+    if len(wtabs) != 1 or not vvar:
+        n9.missing_anchor(f"the match on (value, format) of the value writer ({len(wtabs)} found)")
+    else:
+        f_, m_ = wtabs[0]
+        for kind in ("TStr", "BStr"):
+            v_ = T(C(f"jaq_json::Val::{kind}", *([ANY] * vvar[kind])), C("jaq_fmts::Format::Raw0"))
+            cs_ = candidates(m_["arms"], v_)
+            guarded = bool(cs_) and cs_[0][1] == "guard" and any(re.search(r"::(contains|find_byte|memchr|find|position|any|iter)$", c_) for c_ in callees(m_["arms"][cs_[0][0]]["guard"]))
+            rejects = guarded and (is_err_body(m_["arms"][cs_[0][0]]["body"]))
+            n9.examined(kind, True, {"string_kind": kind, "nul_test_before_raw_write": guarded, "rejects": rejects})
+            if not (guarded and rejects):
+                n9.violate(f"raw0/{kind}", f"a {'text' if kind == 'TStr' else 'byte'} string written with --raw-output0 is not tested for NUL before its bytes are written: the value would read back as two values", where=m_["sp"])
+    rules.append(n9.finish())
 
     # ---------------- I17.6 one input stream
     i6 = Rule("I17.6", "one input stream: the function that builds the run-time data wraps the caller's input iterator in exactly one shared iterator; the main loop iterates "
